@@ -672,7 +672,15 @@ func (c *Codec) Decode(src []byte) (dst framer.Frame, err error) {
 // DecodeStream decodes a frame from the given io reader.
 func (c *Codec) DecodeStream(reader io.Reader) (framer.Frame, error) {
 	c.processUpdates()
-	c.panicIfNotUpdated("Decode")
+	if c.mu.seqNum < 1 {
+		// The bytes (and the moment they arrive) are chosen by the remote side: a data
+		// frame that arrives before the channel set was negotiated is a protocol error,
+		// not a programming error.
+		return framer.Frame{}, errors.Wrap(
+			validate.ErrValidation,
+			"[framer.codec] - received a frame before the codec was given a channel set",
+		)
+	}
 	c.reader.Reset(reader)
 
 	var (
